@@ -185,6 +185,9 @@ func (p *Program) FuncName(fn *ssa.Function) string {
 		return "<nil>"
 	}
 	if fn.Parent() != nil {
+		if n := p.anonName(fn); n != "" {
+			return n
+		}
 		// anonymous function: parent name + index among the parent's AnonFuncs
 		par := fn.Parent()
 		idx := 0
@@ -296,4 +299,61 @@ func (p *Program) FileOf(pos token.Pos) (*packages.Package, *ast.File) {
 		}
 	}
 	return nil, nil
+}
+
+// anonName names a function literal after its enclosing top-level declaration
+// and its index among the literals of that declaration (source order):
+// "cmd.var RootCmd$1", "align.(*phaser).Phase$2". Stable under edits elsewhere.
+func (p *Program) anonName(fn *ssa.Function) string {
+	pos := fn.Pos()
+	if !pos.IsValid() {
+		return ""
+	}
+	pk, f := p.FileOf(pos)
+	if f == nil {
+		return ""
+	}
+	rel := strings.TrimPrefix(strings.TrimPrefix(pk.PkgPath, p.ModPath), "/")
+	if rel == "" {
+		rel = "main"
+	}
+	for _, d := range f.Decls {
+		if d.Pos() > pos || pos > d.End() {
+			continue
+		}
+		name := ""
+		var scope ast.Node = d
+		switch x := d.(type) {
+		case *ast.FuncDecl:
+			name = x.Name.Name
+			if x.Recv != nil && len(x.Recv.List) > 0 {
+				name = "(" + types.ExprString(x.Recv.List[0].Type) + ")." + x.Name.Name
+			}
+		case *ast.GenDecl:
+			for _, sp := range x.Specs {
+				if vs, ok := sp.(*ast.ValueSpec); ok && vs.Pos() <= pos && pos <= vs.End() && len(vs.Names) > 0 {
+					name = "var " + vs.Names[0].Name
+					scope = vs
+				}
+			}
+		}
+		if name == "" {
+			return ""
+		}
+		idx, k := 0, 0
+		ast.Inspect(scope, func(n ast.Node) bool {
+			if fl, ok := n.(*ast.FuncLit); ok {
+				k++
+				if fl.Pos() == pos || fl.Type.Pos() == pos || fl.Type.Func == pos {
+					idx = k
+				}
+			}
+			return true
+		})
+		if idx == 0 {
+			return ""
+		}
+		return fmt.Sprintf("%s.%s$%d", rel, name, idx)
+	}
+	return ""
 }
